@@ -301,13 +301,97 @@ fn hammer(seed: u64, rounds: usize, nthreads: usize, iters: usize) -> (u64, Vec<
     (nexec, mism)
 }
 
+/// neighbouring configurations: (family, configuration A, configuration B) where B differs from A in exactly one parameter.
+/// `neigh_digest(pair, which, seed)` sketches a fixed small input under configuration A (which = 0) or B (which = 1).
+pub const NEIGH_PAIRS: usize = 31;
+pub fn neigh_name(pair: usize) -> String {
+    let (fam, what) = neigh_cfg(pair);
+    format!("{}: {}", fam, what)
+}
+fn neigh_cfg(pair: usize) -> (&'static str, &'static str) {
+    match pair {
+        0 => ("SetSketcher<u16>", "b 1.1 -> 1.2"),
+        1 => ("SetSketcher<u16>", "m 64 -> 65"),
+        2 => ("SetSketcher<u16>", "a 20 -> 30"),
+        3 => ("SetSketcher<u16>", "q 1000 -> 500"),
+        4 => ("SetSketcher<u32>", "b 1.1 -> 1.2"),
+        5 => ("SetSketcher<u32>", "m 64 -> 65"),
+        6 => ("SetSketcher<u32>", "a 20 -> 30"),
+        7 => ("SetSketcher<u32>", "q 1000 -> 500"),
+        8 => ("ProbOrdMinHash2", "l 2 -> 3"),
+        9 => ("ProbOrdMinHash2", "m 16 -> 17"),
+        10 => ("ProbOrdMinHash2", "m 16 -> 32 with l 2"),
+        11..=14 => ("ProbMinHash", "m 16 -> 17"),
+        15..=18 => ("ProbMinHash", "placeholder 0 -> 7"),
+        19..=22 => ("ProbMinHash", "hasher Fnv -> NoHash (same m)"),
+        23 => ("SuperMinHash<f32>", "m 16 -> 17"),
+        24 => ("SuperMinHash<f64>", "m 16 -> 17"),
+        25 => ("SuperMinHash2<u64>", "m 16 -> 17"),
+        26 => ("SuperMinHash2<u32>", "m 16 -> 17"),
+        27 => ("OptDensMinHash<f32>", "m 200 -> 201"),
+        28 => ("OptDensMinHash<f64>", "m 200 -> 201"),
+        29 => ("RevOptDensMinHash<f32>", "m 200 -> 201"),
+        _ => ("RevOptDensMinHash<f64>", "m 200 -> 201"),
+    }
+}
+pub fn neigh_digest(pair: usize, which: usize, seed: u64) -> u64 {
+    let mut rng = rng_from(mix(&[seed, 0x4e16, pair as u64]));
+    let ids = fresh_ids(&mut rng, 40, 0);
+    let b = which == 1;
+    let usk = |k: UKind, m: usize, xs: &[u64]| {
+        let mut s = make_usk(k, m);
+        s.sketch_slice(xs);
+        digest_u64s(&s.bits())
+    };
+    match pair {
+        0..=7 => {
+            let (mut bb, mut m, mut a, mut q) = (1.1, 64usize, 20., 1000u64);
+            if b {
+                match pair % 4 {
+                    0 => bb = 1.2,
+                    1 => m = 65,
+                    2 => a = 30.,
+                    _ => q = 500,
+                }
+            }
+            usk(if pair < 4 { UKind::SetU16(bb, a, q) } else { UKind::SetU32(bb, a, q) }, m, &ids)
+        }
+        8..=10 => {
+            let (m, l) = match (pair, b) {
+                (8, true) => (16u32, 3usize),
+                (9, true) => (17, 2),
+                (10, true) => (32, 2),
+                _ => (16, 2),
+            };
+            let seq: Vec<u64> = (0..30).map(|i| ids[(i * 7) % 11]).collect();
+            digest_u64s(&ProbOrdMinHash2::<FnvHasher>::new(m, l).hash_set(&seq))
+        }
+        11..=22 => {
+            let v = ALL_PV[(pair - 11) % 4];
+            let w: Vec<(u64, f64)> = ids.iter().take(12).map(|&d| (d | 8, 0.5 + (d % 7) as f64)).collect();
+            let (m, ph, hs) = match ((pair - 11) / 4, b) {
+                (0, true) => (17, 0, Hs::Fnv),
+                (1, true) => (16, 7, Hs::Fnv),
+                (2, true) if v != Pv::P3aSha => (16, 0, Hs::NoHash),
+                (2, true) => (16, 3, Hs::Fnv),
+                _ => (16, 0, Hs::Fnv),
+            };
+            let e = if v == Pv::P2 || v == Pv::P3 { Entry::Item } else { Entry::IdxMap };
+            let (sig, reg) = pmh(v, hs, m, &w, e, ph);
+            mix(&[digest_u64s(&sig), digest_f64s(&reg)])
+        }
+        23..=26 => usk([UKind::SmhF32, UKind::SmhF64, UKind::Smh2U64, UKind::Smh2U32][pair - 23], if b { 17 } else { 16 }, &ids),
+        _ => usk([UKind::OptF32, UKind::OptF64, UKind::RevF32, UKind::RevF64][(pair - 27).min(3)], if b { 201 } else { 200 }, &ids),
+    }
+}
+
 fn battery_size(tier: Tier) -> usize {
     tier.pick(12, 60)
 }
 
 pub fn run(rep: &mut Report) {
     quiet_panics();
-    rep.rule = "a battery of (sketcher type, parameters, entry point, input) cases covering every public sketcher (4 ProbMinHash variants x entry points incl. std HashMap, ProbOrdMinHash2 with 2 hashers incl. reused instance, SuperMinHash f32/f64/NoHash, SuperMinHash2 u64/u32, SetSketch 6 tuples, Opt/RevOpt densification all views) is digested (bit patterns) by: (i) two passes in the main thread, (ii) 16 threads released by a barrier, each constructing its own instances, (iii) child processes (different ASLR, RandomState keys, thread_rng state). All digests of a case must agree. Distinct = battery cases; non-trivial = all (each involves randomised hashing of >= 1 item)".into();
+    rep.rule = "a battery of (sketcher type, parameters, entry point, input) cases covering every public sketcher (4 ProbMinHash variants x entry points incl. std HashMap, ProbOrdMinHash2 with 2 hashers incl. reused instance, SuperMinHash f32/f64/NoHash, SuperMinHash2 u64/u32, SetSketch 6 tuples, Opt/RevOpt densification all views) is digested (bit patterns) by: (i) two passes in the main thread, (ii) 16 threads released by a barrier, each constructing its own instances, (iii) child processes (different ASLR, RandomState keys, thread_rng state), cold processes whose 16 threads start at once, and 31 pairs of configurations that differ in exactly one parameter, each run in new processes in the orders A B / B A / A A B / B B A (the digest of a configuration must not depend on what ran before). All digests of a case must agree. Distinct = battery cases; non-trivial = all (each involves randomised hashing of >= 1 item)".into();
     let seed = subseed(rep.seed, "C12/battery", &[]);
     let size = battery_size(rep.tier);
     let reference = battery(seed, size);
@@ -446,6 +530,46 @@ pub fn run(rep: &mut Report) {
             }
         }
         rep.count("processes.cold_parallel_children", npar as u64);
+        // neighbouring configurations: in a new process configuration A then B, in another one B then A; the digest of a
+        // configuration must not depend on which other configuration the process (or thread) has used before
+        let orders = ["ab", "ba", "aab", "bba"];
+        let nchildren: Vec<_> = (0..NEIGH_PAIRS)
+            .flat_map(|p| orders.iter().map(move |o| (p, *o)))
+            .map(|(p, o)| (p, o, std::process::Command::new(&exe).args(["child", "c12", &seed.to_string(), "0", "neigh", &p.to_string(), o]).env("RUST_BACKTRACE", "0").stdout(std::process::Stdio::piped()).stderr(std::process::Stdio::null()).spawn()))
+            .collect();
+        let mut seen: BTreeMap<(usize, char), (u64, String)> = BTreeMap::new();
+        let mut nneigh = 0u64;
+        for (p, o, c) in nchildren {
+            match c.and_then(|c| c.wait_with_output()) {
+                Ok(out) if out.status.success() => {
+                    let text = String::from_utf8_lossy(&out.stdout);
+                    for line in text.lines() {
+                        if let Some(rest) = line.strip_prefix("NEIGH ") {
+                            let mut it = rest.split(' ');
+                            if let (Some(w), Some(d)) = (it.next(), it.next()) {
+                                let which = w.chars().next().unwrap_or('?');
+                                let d = u64::from_str_radix(d, 16).unwrap_or(0);
+                                nneigh += 1;
+                                match seen.get(&(p, which)) {
+                                    Some((d0, o0)) if *d0 != d => {
+                                        mismatches.entry(format!("{}/neighbour-configurations", neigh_cfg(p).0)).or_default().push(format!("configuration {} of the pair '{}' gives {:#x} in a new process that runs the sequence '{}' and {:#x} in one that runs '{}': the result depends on the configuration used before", which.to_ascii_uppercase(), neigh_name(p), d, o, d0, o0));
+                                    }
+                                    Some(_) => {}
+                                    None => {
+                                        seen.insert((p, which), (d, o.to_string()));
+                                    }
+                                }
+                            }
+                        }
+                    }
+                }
+                Ok(out) => rep.violation("C12/process-crash", "processes", format!("child process for neighbouring configurations '{}' order {} died (exit {:?})", neigh_name(p), o, out.status.code()), json!({"pair": p, "order": o})),
+                Err(e) => rep.inconclusive.push(format!("neighbour child {} {} could not be run: {}", p, o, e)),
+            }
+        }
+        rep.evaluations += nneigh;
+        rep.count("processes.neighbour_configuration_digests", nneigh);
+        rep.count("processes.neighbour_configuration_pairs", NEIGH_PAIRS as u64);
         let distinct_info: std::collections::BTreeSet<&String> = proc_info.iter().collect();
         rep.count("processes.children", nproc as u64);
         rep.count("processes.distinct_layout_or_randomstate_fingerprints", distinct_info.len() as u64);
@@ -464,6 +588,15 @@ pub fn run(rep: &mut Report) {
 pub fn child(a: &[String]) -> i32 {
     let seed: u64 = a.first().and_then(|s| s.parse().ok()).unwrap_or(1);
     let size: usize = a.get(1).and_then(|s| s.parse().ok()).unwrap_or(3);
+    if a.get(2).map(|s| s == "neigh").unwrap_or(false) {
+        let pair: usize = a.get(3).and_then(|s| s.parse().ok()).unwrap_or(0);
+        let order = a.get(4).cloned().unwrap_or_else(|| "ab".into());
+        for c in order.chars() {
+            let d = neigh_digest(pair, if c == 'b' { 1 } else { 0 }, seed);
+            println!("NEIGH {} {:x}", c, d);
+        }
+        return 0;
+    }
     if a.get(2).map(|s| s == "par").unwrap_or(false) {
         // cold process: nothing of the crate has run yet; all threads start at once, each in another section
         let nthreads: usize = a.get(3).and_then(|s| s.parse().ok()).unwrap_or(16);
